@@ -4,168 +4,120 @@ import CogentModel.Proofs.AtomicWriteLemmas
 import CogentModel.Proofs.ComposableLemmas
 /-! # C19 — file writes are all-or-nothing; interrupted runs resume to the same result
 
+`j.cfg` (`Job.cfg`) is THE model of the code as it is now: one-call commit (`src.replace(dest)`),
+cleanup in a `finally`, guarded `__enter__`, every writer inside a with-block.  The harness checks
+on every run that the real system-call traces, crash states and fault traces are those of `j.cfg`.
+
 `crashState c fs k` = the file system after exactly the first `k` calls of the atomic_write
 program (the process died just before call `k`); `faultState c fs k` = call `k` raised and the
 code's handler ran.  `WF c fs`: the destination's directory exists, the destination is not a
 directory, and the name `mkdtemp` returns is fresh.  All statements are for every initial file
-system, every chunk list and every `k`. -/
+system, every chunk list and every `k`.
+
+The section "historical variants" at the end keeps theorems about the versions the code followed
+before the `fix:` commits (unlink-then-rename, no cleanup outside the with-block, writer-level
+unlink); they are not claims about the current code — they name what a regression would mean. -/
 namespace CogentModel.C19
 open CogentModel.AtomicWrite CogentModel.Composable
 
 /-- example values used by the non-vacuity examples: directory `[0]`, destination `[0,1]` holding `[9]` -/
-def exCfg : Cfg :=
-  { commit := .replace, guarded := true, withBlock := true, bodyUnlink := false, closeInBody := false, dir := [0], name := 1, t := 2, u := 3,
-    chunks := [[5], [6, 7]], zipMember := none }
+def exJob : Job := { dir := [0], name := 1, t := 2, u := 3, chunks := [[5], [6, 7]], closeInBody := false, zipMember := none }
+def exCfg : Cfg := exJob.cfg
 def exCfgCoded : Cfg :=
-  { commit := .unlinkRename, guarded := false, withBlock := true, bodyUnlink := false, closeInBody := false, dir := [0], name := 1, t := 2, u := 3,
-    chunks := [[5]], zipMember := none }
+  { commit := .unlinkRename, guarded := false, withBlock := true, bodyUnlink := false, closeInBody := false,
+    dir := [0], name := 1, t := 2, u := 3, chunks := [[5]], zipMember := none }
 def exFS : FS := upd (upd (fun _ => none) [0] (some .dir)) [0, 1] (some (.file [9]))
 def exFSzip : FS := upd (upd (fun _ => none) [0] (some .dir)) [0, 1] (some (.archive [(4, [1])] false))
 
-/-- A complete run (either commit strategy) ends with exactly the new content at the destination,
-no temporary path left, and nothing else touched. -/
-theorem write_completes (c : Cfg) (fs : FS) (h : WF c fs) (hz : c.zipMember = none) :
-    crashState c fs (program c).length c.dest = some (.file c.newData) ∧
-    (∀ p, p ≠ c.dest → under c.tmpdir p = false → crashState c fs (program c).length p = fs p) ∧
-    (exec fs (program c)).2 = none := by
-  have hlen : (pre c).length + 1 < (program c).length := by
-    cases hc : c.commit <;> simp [program, post, commitInstrs, hz, hc]
-  refine ⟨?_, fun p hp hu => crash_others_unchanged c fs _ p hp hu, ?_⟩
-  · cases hc : c.commit with
-    | replace => exact crash_replace_after c fs h hz hc _ (by omega)
-    | unlinkRename => exact crash_unlinkRename_after c fs h hz hc _ hlen
-  · unfold program
-    rw [exec_append_ok _ _ _ (by rw [exec_pre c fs h]), exec_pre c fs h]
-    cases hc : c.commit with
-    | replace => rw [exec_post_replace_2 c fs h hz hc]
-    | unlinkRename =>
-      rw [post_unlinkRename c hz hc, exec_cons_ok _ _ _ _ (run_unlink c fs h),
-        exec_cons_ok _ _ _ _ (run_rename_unlinked c fs h),
-        exec_cons_ok _ _ _ _ (run_rmtree c _ (commitState_tmpdir c fs h))]
-      rfl
-
-example : WF exCfg
-    exFS :=
+example : WF exCfg exFS :=
   ⟨by decide, by decide, fun p hp => by
       have a : p ≠ [0, 1] := by intro e; subst e; revert hp; decide
       have b : p ≠ [0] := by intro e; subst e; revert hp; decide
       simp [exFS, upd, a, b], by decide⟩
 
-/-- **One-call commit (`os.replace`)**: at every crash point the destination holds the old
-content (or is still absent) up to and including the point just before the rename, and the
-complete new content afterwards; nothing outside the temp dir is ever touched. -/
-theorem atomic_all_prefixes (c : Cfg) (fs : FS) (h : WF c fs) (hz : c.zipMember = none)
-    (hc : c.commit = .replace) (k : Nat) :
-    (crashState c fs k c.dest = fs c.dest ∨ crashState c fs k c.dest = some (.file c.newData)) ∧
-    (k ≤ renameIdx c → crashState c fs k c.dest = fs c.dest) ∧
-    (renameIdx c < k → crashState c fs k c.dest = some (.file c.newData)) ∧
-    (∀ p, p ≠ c.dest → under c.tmpdir p = false → crashState c fs k p = fs p) := by
-  have hr : renameIdx c = (pre c).length := by simp [renameIdx, hc]
-  refine ⟨?_, ?_, ?_, fun p hp hu => crash_others_unchanged c fs k p hp hu⟩
-  · by_cases hk : k ≤ (pre c).length
-    · exact Or.inl (crash_before_commit c fs h.hne k hk)
-    · exact Or.inr (crash_replace_after c fs h hz hc k (by omega))
-  · intro hk; exact crash_before_commit c fs h.hne k (by omega)
-  · intro hk; exact crash_replace_after c fs h hz hc k (by omega)
+/-! ## the code as it is now -/
 
-example : crashState exCfg
-    exFS 5 [0, 1] = some (.file [9]) := by decide
+/-- A complete run ends with exactly the new content at the destination, no temporary path left,
+nothing else touched, and no call failing. -/
+theorem write_completes (j : Job) (fs : FS) (h : WF j.cfg fs) (hz : j.zipMember = none) :
+    crashState j.cfg fs (program j.cfg).length j.cfg.dest = some (.file j.cfg.newData) ∧
+    (∀ p, under j.cfg.tmpdir p = true → crashState j.cfg fs (program j.cfg).length p = none) ∧
+    (∀ p, p ≠ j.cfg.dest → under j.cfg.tmpdir p = false → crashState j.cfg fs (program j.cfg).length p = fs p) ∧
+    (exec fs (program j.cfg)).2 = none := by
+  have hz' : j.cfg.zipMember = none := hz
+  have hc : j.cfg.commit = .replace := rfl
+  have hlen : (program j.cfg).length = (pre j.cfg).length + 2 := by simp [program, post, commitInstrs, hz', hc]
+  have hfull : exec fs (program j.cfg) = ((fun q => if under j.cfg.tmpdir q then none else commitState j.cfg fs q), none) := by
+    unfold program
+    rw [exec_append_ok _ _ _ (by rw [exec_pre _ fs h]), exec_pre _ fs h, exec_post_replace_2 _ fs h hz' hc]
+  refine ⟨crash_replace_after _ fs h hz' hc _ (by omega), ?_, fun p hp hu => crash_others_unchanged _ fs _ p hp hu, by rw [hfull]⟩
+  intro p hp
+  unfold crashState
+  rw [List.take_length, hfull]; simp [hp]
 
-/-- **Unlink-then-rename (what `_close_rename_standard` does)**: the same holds at every crash
-point except the one between the two calls. -/
-theorem atomic_all_prefixes_partial (c : Cfg) (fs : FS) (h : WF c fs) (hz : c.zipMember = none)
-    (hc : c.commit = .unlinkRename) (k : Nat) (hk : k ≠ (pre c).length + 1) :
-    (crashState c fs k c.dest = fs c.dest ∨ crashState c fs k c.dest = some (.file c.newData)) ∧
-    (∀ p, p ≠ c.dest → under c.tmpdir p = false → crashState c fs k p = fs p) := by
-  refine ⟨?_, fun p hp hu => crash_others_unchanged c fs k p hp hu⟩
-  by_cases hk' : k ≤ (pre c).length
-  · exact Or.inl (crash_before_commit c fs h.hne k hk')
-  · exact Or.inr (crash_unlinkRename_after c fs h hz hc k (by omega))
+example : crashState exCfg exFS 7 [0, 1] = some (.file [5, 6, 7]) ∧ crashState exCfg exFS 7 [0, 2] = none := by decide
 
-/- FULL STATEMENT (not proved): `atomic_all_prefixes` for `c.commit = .unlinkRename` without the
-   hypothesis `k ≠ (pre c).length + 1`.  It is false: see `atomic_all_prefixes_counter`
-   (in the window the destination is gone whatever it held). -/
+/-- **All-or-nothing at every crash point.** Whatever the initial file system (destination present
+with any content, or absent), whatever the chunks, and wherever the process dies: up to and
+including the point just before the rename the destination holds the old content (or is still
+absent); from the rename on it holds the complete new content; nothing outside the temp dir is
+ever touched. -/
+theorem atomic_all_prefixes (j : Job) (fs : FS) (h : WF j.cfg fs) (hz : j.zipMember = none) (k : Nat) :
+    (crashState j.cfg fs k j.cfg.dest = fs j.cfg.dest ∨ crashState j.cfg fs k j.cfg.dest = some (.file j.cfg.newData)) ∧
+    (k ≤ renameIdx j.cfg → crashState j.cfg fs k j.cfg.dest = fs j.cfg.dest) ∧
+    (renameIdx j.cfg < k → crashState j.cfg fs k j.cfg.dest = some (.file j.cfg.newData)) ∧
+    (∀ p, p ≠ j.cfg.dest → under j.cfg.tmpdir p = false → crashState j.cfg fs k p = fs p) := by
+  have hz' : j.cfg.zipMember = none := hz
+  have hc : j.cfg.commit = .replace := rfl
+  have hr : renameIdx j.cfg = (pre j.cfg).length := by simp [renameIdx, hc]
+  refine ⟨?_, ?_, ?_, fun p hp hu => crash_others_unchanged _ fs k p hp hu⟩
+  · by_cases hk : k ≤ (pre j.cfg).length
+    · exact Or.inl (crash_before_commit _ fs h.hne k hk)
+    · exact Or.inr (crash_replace_after _ fs h hz' hc k (by omega))
+  · intro hk; exact crash_before_commit _ fs h.hne k (by omega)
+  · intro hk; exact crash_replace_after _ fs h hz' hc k (by omega)
 
-/-- In the window between `unlink` and `rename` the destination is absent, whatever it held:
-for any pre-existing content this is neither the old nor the new state. -/
-theorem atomic_all_prefixes_counter (c : Cfg) (fs : FS) (h : WF c fs) (hz : c.zipMember = none)
-    (hc : c.commit = .unlinkRename) :
-    crashState c fs ((pre c).length + 1) c.dest = none :=
-  crash_unlinkRename_window c fs h hz hc
+example : crashState exCfg exFS 5 [0, 1] = some (.file [9]) ∧ crashState exCfg exFS 6 [0, 1] = some (.file [5, 6, 7]) := by decide
 
-/-- concrete witness (dest `[0,1]` holding `[9]`, one chunk `[5]`, killed before call 4 = the rename) -/
-theorem atomic_all_prefixes_counter_witness :
-    let c : Cfg := exCfgCoded
-    let fs : FS := exFS
-    fs c.dest = some (.file [9]) ∧ crashState c fs 5 c.dest = none ∧
-    crashState c fs 4 c.dest = some (.file [9]) ∧ crashState c fs 6 c.dest = some (.file [5]) := by
-  decide
+/-- **Handled failures.** Whichever call before the final `rmtree` raises (mkdtemp, the open in
+`__enter__`, any data write, the close, the rename), after the code's handler the destination keeps
+its previous content (or absence) and no path under the temp dir remains. -/
+theorem fault_leaves_old_and_no_temp (j : Job) (fs : FS) (h : WF j.cfg fs) (hz : j.zipMember = none)
+    (k : Nat) (hk : k + 1 < (program j.cfg).length) :
+    faultState j.cfg fs k j.cfg.dest = fs j.cfg.dest ∧
+    ∀ p, under j.cfg.tmpdir p = true → faultState j.cfg fs k p = none := by
+  have hz' : j.cfg.zipMember = none := hz
+  have hc : j.cfg.commit = .replace := rfl
+  have : (program j.cfg).length = (pre j.cfg).length + 2 := by simp [program, post, commitInstrs, hz', hc]
+  exact fault_guarded_replace _ fs h hz' hc rfl rfl rfl k (by omega)
 
-/-- **Repaired handler table** (cleanup in a `finally`, guarded open) with the one-call commit:
-whichever call before the final `rmtree` raises, the destination keeps its previous content (or
-absence) and no path under the temp dir remains. -/
-theorem fault_leaves_old_and_no_temp (c : Cfg) (fs : FS) (h : WF c fs) (hz : c.zipMember = none)
-    (hc : c.commit = .replace) (hg : c.guarded = true) (hw : c.withBlock = true) (hb : c.bodyUnlink = false)
-    (k : Nat) (hk : k + 1 < (program c).length) :
-    faultState c fs k c.dest = fs c.dest ∧ ∀ p, under c.tmpdir p = true → faultState c fs k p = none := by
-  have : (program c).length = (pre c).length + 2 := by simp [program, post, commitInstrs, hz, hc]
-  exact fault_guarded_replace c fs h hz hc hg hw hb k (by omega)
+example : faultState exCfg exFS 5 [0, 2] = none ∧ faultState exCfg exFS 5 [0, 1] = some (.file [9]) ∧
+    faultState exCfg exFS 1 [0, 2] = none := by decide
 
-example : faultState exCfg
-    exFS 5 [0, 2] = none := by decide
+/-- **zip-member target** (`in_zip`, append in place — unchanged by the fixes): outside the window
+between appending the member data and writing the new central directory, the archive's readable
+members are the old ones, plus the new member after the append… -/
+theorem zip_member_prefixes_partial (j : Job) (fs : FS) (h : WF j.cfg fs) (m : Nat) (hz : j.zipMember = some m)
+    (ms : List (Nat × Data)) (hold : fs j.cfg.dest = some (.archive ms false)) (k : Nat)
+    (hk : k ≠ (pre j.cfg).length + 1) :
+    readable (crashState j.cfg fs k j.cfg.dest) = some ms ∨
+    readable (crashState j.cfg fs k j.cfg.dest) = some (ms ++ [(m, j.cfg.newData)]) := by
+  by_cases hk' : k ≤ (pre j.cfg).length
+  · left; rw [crash_before_commit _ fs h.hne k hk', hold]; rfl
+  · right; exact zip_after _ fs h m hz ms hold k (by omega)
 
-/-- **Handlers as coded** (no cleanup outside the with-block): a failure *inside the writer's
-with-block* (any data write) is handled correctly — unless the writer's own except-clause
-unlinks the destination (`save_to_filename`). -/
-theorem fault_leaves_old_and_no_temp_partial (c : Cfg) (fs : FS) (h : WF c fs) (hw : c.withBlock = true)
-    (hb : c.bodyUnlink = false) (j : Nat) (hj : j < c.chunks.length) :
-    faultState c fs (j + 2) c.dest = fs c.dest ∧
-    ∀ p, under c.tmpdir p = true → faultState c fs (j + 2) p = none := by
-  have hk : j + 2 ≤ (pre c).length := by rw [pre_length]; omega
-  have hS := crash_tmpdir_pre c fs h (j + 2) (by omega) hk
-  have hD := crash_before_commit c fs h.hne (j + 2) hk
-  unfold faultState
-  rw [phaseAt_body c j hj]
-  rw [cleanup_result c _ hS _ (Or.inr (by simp [handler, hw, hb]))]
-  exact ⟨by simp [not_under_tmpdir_dest c h.hne, hD], fun p hp => by simp [hp]⟩
-
-/- FULL STATEMENT (not proved): `fault_leaves_old_and_no_temp` for `c.guarded = false` (the pinned
-   tree).  False at the calls outside the with-block: see `fault_counter_witness`. -/
-
-/-- As coded: `open` raising in `__enter__` leaks the temp dir (k = 1); the rename raising after the
-unlink loses the destination and leaks the temp file (k = 4); a bare `atomic_write` object
-(`Table.write`) leaks the temp dir when a data write fails (k = 2); `save_to_filename`'s own
-except-clause removes the *destination* when a data write fails (k = 2). -/
-theorem fault_counter_witness :
-    let c : Cfg := exCfgCoded
-    let fs : FS := exFS
-    faultState c fs 1 c.tmpdir = some .dir ∧
-    (faultState c fs 5 c.dest = none ∧ faultState c fs 5 c.tmpfile = some (.file [5])) ∧
-    (faultState c fs 4 c.dest = some (.file [5]) ∧ faultState c fs 4 c.tmpdir = some .dir) ∧
-    faultState { c with withBlock := false } fs 2 c.tmpdir = some .dir ∧
-    faultState { c with bodyUnlink := true, closeInBody := true } fs 2 c.dest = none := by
-  decide
-
-/-- **zip-member target** (`in_zip`, append in place): outside the window between appending the
-member data and writing the new central directory, the archive's readable members are the old
-ones plus the new member after the append… -/
-theorem zip_member_prefixes_partial (c : Cfg) (fs : FS) (h : WF c fs) (m : Nat) (hz : c.zipMember = some m)
-    (ms : List (Nat × Data)) (hold : fs c.dest = some (.archive ms false)) (k : Nat)
-    (hk : k ≠ (pre c).length + 1) :
-    readable (crashState c fs k c.dest) = some ms ∨
-    readable (crashState c fs k c.dest) = some (ms ++ [(m, c.newData)]) := by
-  by_cases hk' : k ≤ (pre c).length
-  · left; rw [crash_before_commit c fs h.hne k hk', hold]; rfl
-  · right; exact zip_after c fs h m hz ms hold k (by omega)
+/- FULL STATEMENT (not proved): `zip_member_prefixes_partial` without `hk`.  False, see
+   `zip_member_counter`: `_close_rename_zip` appends into the live archive. -/
 
 /-- …and inside that window the archive is unreadable: every old member is lost with it. -/
-theorem zip_member_counter (c : Cfg) (fs : FS) (h : WF c fs) (m : Nat) (hz : c.zipMember = some m)
-    (ms : List (Nat × Data)) (hold : fs c.dest = some (.archive ms false)) :
-    readable (crashState c fs ((pre c).length + 1) c.dest) = none :=
-  zip_torn_window c fs h m hz ms hold
+theorem zip_member_counter (j : Job) (fs : FS) (h : WF j.cfg fs) (m : Nat) (hz : j.zipMember = some m)
+    (ms : List (Nat × Data)) (hold : fs j.cfg.dest = some (.archive ms false)) :
+    readable (crashState j.cfg fs ((pre j.cfg).length + 1) j.cfg.dest) = none :=
+  zip_torn_window _ fs h m hz ms hold
 
-example : readable (crashState { exCfgCoded with zipMember := some 8 } exFSzip 6 [0, 1])
-    = some [(4, [1]), (8, [5])] := by decide
+example : readable (crashState { exJob with zipMember := some 8 }.cfg exFSzip 7 [0, 1])
+    = some [(4, [1]), (8, [5, 6, 7])] ∧
+    readable (crashState { exJob with zipMember := some 8 }.cfg exFSzip 6 [0, 1]) = none := by decide
 
 /-- **Resume**: interrupt an `apply_to` run after any number `j` of written results (any
 completion order), then run it again completely (again any completion order): every selected
@@ -189,5 +141,64 @@ theorem resume_selects (idOf : Nat → Id) (s s' : Store) (inputs : List Nat) (s
 
 example : applyTo (fun m => m % 10) (fun m => .ok ⟨1, m, some m⟩) [] [11, 22, 33] [2, 0, 1]
     = some [(3, .ok ⟨1, 33, some 33⟩), (1, .ok ⟨1, 11, some 11⟩), (2, .ok ⟨1, 22, some 22⟩)] := by decide
+
+/-! ## historical variants (NOT the current code)
+
+What the same statements look like for the versions before the `fix:` commits.  The harness names
+the variant when the real traces stop matching `Job.cfg`, so these say what such a regression means. -/
+
+/-- unlink-then-rename (`_close_rename_standard` before 3deaff175): all-or-nothing holds at every
+crash point except the one between the two calls… -/
+theorem historical_unlink_rename_outside_window (c : Cfg) (fs : FS) (h : WF c fs) (hz : c.zipMember = none)
+    (hc : c.commit = .unlinkRename) (k : Nat) (hk : k ≠ (pre c).length + 1) :
+    (crashState c fs k c.dest = fs c.dest ∨ crashState c fs k c.dest = some (.file c.newData)) ∧
+    (∀ p, p ≠ c.dest → under c.tmpdir p = false → crashState c fs k p = fs p) := by
+  refine ⟨?_, fun p hp hu => crash_others_unchanged c fs k p hp hu⟩
+  by_cases hk' : k ≤ (pre c).length
+  · exact Or.inl (crash_before_commit c fs h.hne k hk')
+  · exact Or.inr (crash_unlinkRename_after c fs h hz hc k (by omega))
+
+/-- …and in that window the destination is absent, whatever it held. -/
+theorem historical_unlink_rename_window (c : Cfg) (fs : FS) (h : WF c fs) (hz : c.zipMember = none)
+    (hc : c.commit = .unlinkRename) :
+    crashState c fs ((pre c).length + 1) c.dest = none :=
+  crash_unlinkRename_window c fs h hz hc
+
+/-- concrete witness (dest `[0,1]` holding `[9]`, one chunk `[5]`, killed before call 5 = the rename) -/
+theorem historical_unlink_rename_witness :
+    exFS exCfgCoded.dest = some (.file [9]) ∧ crashState exCfgCoded exFS 5 exCfgCoded.dest = none ∧
+    crashState exCfgCoded exFS 4 exCfgCoded.dest = some (.file [9]) ∧
+    crashState exCfgCoded exFS 6 exCfgCoded.dest = some (.file [5]) := by
+  decide
+
+/-- handlers before 3deaff175 (no cleanup outside the with-block): only a failure inside the
+writer's with-block was handled correctly (and not if the writer's own except-clause unlinked the
+destination, `save_to_filename` before ff8d48a2e). -/
+theorem historical_handlers_with_block_only (c : Cfg) (fs : FS) (h : WF c fs) (hw : c.withBlock = true)
+    (hb : c.bodyUnlink = false) (j : Nat) (hj : j < c.chunks.length) :
+    faultState c fs (j + 2) c.dest = fs c.dest ∧
+    ∀ p, under c.tmpdir p = true → faultState c fs (j + 2) p = none := by
+  have hk : j + 2 ≤ (pre c).length := by rw [pre_length]; omega
+  have hS := crash_tmpdir_pre c fs h (j + 2) (by omega) hk
+  have hD := crash_before_commit c fs h.hne (j + 2) hk
+  unfold faultState
+  rw [phaseAt_body c j hj]
+  rw [cleanup_result c _ hS _ (Or.inr (by simp [handler, hw, hb]))]
+  exact ⟨by simp [not_under_tmpdir_dest c h.hne, hD], fun p hp => by simp [hp]⟩
+
+/-- the failures of the historical handlers: `open` raising in `__enter__` leaked the temp dir
+(k = 1); the rename raising after the unlink lost the destination and leaked the temp file
+(k = 5); an unlink failure leaked the temp dir (k = 4); a bare `atomic_write` object
+(`Table.write` before 5df264d66) leaked the temp dir when a data write failed (k = 2);
+`save_to_filename`'s own except-clause removed the *destination* when a data write failed (k = 2). -/
+theorem historical_handlers_witness :
+    let c : Cfg := exCfgCoded
+    let fs : FS := exFS
+    faultState c fs 1 c.tmpdir = some .dir ∧
+    (faultState c fs 5 c.dest = none ∧ faultState c fs 5 c.tmpfile = some (.file [5])) ∧
+    (faultState c fs 4 c.dest = some (.file [5]) ∧ faultState c fs 4 c.tmpdir = some .dir) ∧
+    faultState { c with withBlock := false } fs 2 c.tmpdir = some .dir ∧
+    faultState { c with bodyUnlink := true, closeInBody := true } fs 2 c.dest = none := by
+  decide
 
 end CogentModel.C19
